@@ -40,6 +40,11 @@ static void scenario() {
         canceller(Q, res1); canceller(Q, res2); binder(C, Q); expR = expP = false; expC = true; }
     else if (streq(k, "fresh_cancel")) { // two cancellers of a context that has never been bound (state created)
         canceller(E, res1); canceller(E, res2); binder(C, P); expR = expP = expC = false; }
+    else if (streq(k, "reset_below")) { // I is bound beneath P; cancel(R) marks P and I; I is reset while its ancestors stay cancelled; then an UNRELATED tree is cancelled (S, which has a
+        // bound child Q) while C is bound beneath P: the second request must mark nothing outside S's subtree - in particular not I again
+        ctx_t* J = new ctx_t; bind_under(*J, P);
+        if (!R.cancel_group_execution()) vf_fail("cancel(R) returned false"); if (!J->is_group_execution_cancelled()) vf_fail("descendant J of R not cancelled"); J->reset(); if (J->is_group_execution_cancelled()) vf_fail("reset did not clear J");
+        canceller(S, res1); binder(C, P); expC = true; expP = expR = true; X = (delete X, J); }
     else if (streq(k, "mid")) { canceller(P, res1); binder(C, P); binder(D, R); useD = true; expD = false; expR = false; }
     else if (streq(k, "destroy")) { canceller(R, res1); binder(C, P); init.push_back([&] { r1::thread_data* t = as(nullptr); restore(t); }); body.push_back([&] { delete X; X = nullptr; }); }
     else if (streq(k, "deep")) { canceller(R, res1); binder(C, P);
@@ -55,10 +60,12 @@ static void scenario() {
     // all cancel calls and bindings have completed
     auto chk = [&](ctx_t& c, bool expect, const char* name) { bool is = c.is_group_execution_cancelled(); if (is != expect) vf_fail("%s is %scancelled after all cancel calls and bindings completed (expected %s)", name, is ? "" : "not ", expect ? "cancelled" : "clean"); };
     chk(R, expR, "R (root)"); chk(P, expP, "P (bound child)"); if (bindC) chk(C, expC, "C (bound beneath P concurrently)"); if (useD) chk(D, expD, "D (bound beneath R concurrently)"); if (useE) chk(E, expE, "E (bound beneath C concurrently)");
-    bool sCancelled = streq(k, "prebind"); chk(S, sCancelled, "S (unrelated root)"); chk(Q, sCancelled || streq(k, "leaf_cancel"), "Q (child of S)");
+    if (streq(k, "reset_below")) { if (X->is_group_execution_cancelled()) vf_fail("J (child of P, reset after the cancellation of R) was marked again by the cancellation of the unrelated context S"); }
+    bool sCancelled = streq(k, "prebind") || streq(k, "reset_below"); chk(S, sCancelled, "S (unrelated root)"); chk(Q, sCancelled || streq(k, "leaf_cancel"), "Q (child of S)");
     if (streq(k, "fresh_cancel")) { if (!E.is_group_execution_cancelled()) vf_fail("the fresh context is not cancelled after two cancel calls"); } chk(I, false, "I (isolated context created under P)");
     if (streq(k, "two_cancel") || streq(k, "leaf_cancel") || streq(k, "fresh_cancel")) { if (res1 == res2) vf_fail("concurrent cancel calls on one context returned %d and %d", res1, res2); } else if (!res1) vf_fail("the only cancel call returned false");
     // stays cancelled until reset; reset clears only that context
+    if (streq(k, "reset_below")) { vf_outcome("r=%d", res1); delete X; return; }
     ctx_t& tgt = streq(k, "mid") ? P : streq(k, "prebind") ? S : streq(k, "leaf_cancel") ? Q : streq(k, "fresh_cancel") ? E : R; if (tgt.cancel_group_execution()) vf_fail("a second cancel of a cancelled context returned true");
     tgt.reset(); if (tgt.is_group_execution_cancelled()) vf_fail("reset did not clear the context");
     vf_outcome("r=%d%d", res1, res2);
